@@ -24,7 +24,7 @@ mod wrappers;
 #[global_allocator]
 static ALLOC: lifecycle::SpyAlloc = lifecycle::SpyAlloc;
 
-use std::collections::BTreeMap;
+use std::collections::{BTreeMap, HashMap};
 use std::io::{BufRead, Write};
 use std::sync::{mpsc, Arc, Mutex};
 
@@ -39,12 +39,28 @@ pub struct Report {
     pub steps: u64,
     pub mismatches: u64,
     pub script_errors: u64,
+    pub kinds: HashMap<String, u64>,
     pub cover: BTreeMap<String, u64>,
     pub lines: Vec<String>,
     pub failed_scripts: Vec<(String, Value)>,
 }
 
 impl Report {
+    /// keep at most eight lines per kind (op, key) of mismatch: thousands of one kind must not crowd out another
+    fn add_line(&mut self, line: String) -> bool {
+        let kind = match serde_json::from_str::<Value>(&line) {
+            Ok(v) => format!("{}:{}", v["op"].as_str().unwrap_or(""), v["key"].as_str().unwrap_or("script_error")),
+            Err(_) => String::new(),
+        };
+        let c = self.kinds.entry(kind).or_insert(0);
+        *c += 1;
+        if *c <= 8 {
+            self.lines.push(line);
+            true
+        } else {
+            false
+        }
+    }
     fn merge(&mut self, o: Report, max_fail: usize) {
         self.scripts += o.scripts;
         self.steps += o.steps;
@@ -55,7 +71,7 @@ impl Report {
         }
         self.lines.extend(o.lines);
         for f in o.failed_scripts {
-            if self.failed_scripts.len() < max_fail {
+            if self.failed_scripts.len() < max_fail.max(200) {
                 self.failed_scripts.push(f);
             }
         }
@@ -75,7 +91,7 @@ pub fn run_script<C: Suite>(script: &Value, idx: u64, rep: &mut Report, want_eve
     if C::IS_TOY {
         if let Err(e) = interp::toy_setup(script) {
             rep.script_errors += 1;
-            rep.lines.push(json!({"script": idx, "script_error": e.0}).to_string());
+            rep.add_line(json!({"script": idx, "script_error": e.0}).to_string());
             return events;
         }
     }
@@ -91,6 +107,7 @@ pub fn run_script<C: Suite>(script: &Value, idx: u64, rep: &mut Report, want_eve
         *rep.cover.entry(format!("gen:{pk}:{}:{}", if g { "accept" } else { "reject" }, if a { "accepted" } else { "rejected" })).or_insert(0) += 1;
     }
     let mut bad = false;
+    let mut keep = false; // one of this script's mismatches is of a kind not yet seen eight times
     let empty = vec![];
     let steps = script.get("steps").and_then(|x| x.as_array()).unwrap_or(&empty);
     for (si, st) in steps.iter().enumerate() {
@@ -103,7 +120,15 @@ pub fn run_script<C: Suite>(script: &Value, idx: u64, rep: &mut Report, want_eve
                 let lenient = script.get("lenient").and_then(|x| x.as_bool()).unwrap_or(false) && e.0.starts_with("missing handle");
                 if !bad && !lenient {
                     rep.script_errors += 1;
-                    rep.lines.push(json!({"script": idx, "step": si, "script_error": e.0}).to_string());
+                    rep.add_line(json!({"script": idx, "step": si, "script_error": e.0}).to_string());
+                } else if bad && script.get("oracle").is_some() {
+                    // the behaviour the specification predicted cannot be carried on: an earlier call left the
+                    // environment different from the model's (an object is missing); what the remaining steps
+                    // would have shown is unexamined
+                    rep.mismatches += 1;
+                    keep |= rep.add_line(json!({"script": idx, "step": si, "prop": script["script"],
+                        "op": st["op"], "key": "cut_short", "expected": "the step can be executed", "got": e.0,
+                        "remaining_steps": steps.len() - si}).to_string());
                 }
                 bad = true;
                 break;
@@ -153,7 +178,7 @@ pub fn run_script<C: Suite>(script: &Value, idx: u64, rep: &mut Report, want_eve
                 m["step"] = json!(si);
                 m["op"] = json!(op);
                 m["prop"] = script.get("script").cloned().unwrap_or(Value::Null);
-                rep.lines.push(m.to_string());
+                keep |= rep.add_line(m.to_string());
             }
         }
         if want_events {
@@ -168,7 +193,7 @@ pub fn run_script<C: Suite>(script: &Value, idx: u64, rep: &mut Report, want_eve
             events.push(ev);
         }
     }
-    if bad {
+    if bad && keep {
         rep.failed_scripts.push((format!("{}-{}", script.get("script").and_then(|x| x.as_str()).unwrap_or("s"), idx), script.clone()));
     }
     events
@@ -278,7 +303,9 @@ fn cmd_run(args: &[String]) -> i32 {
         if let Some(m) = &idmap {
             script["idmap"] = m.clone();
         }
-        script["id_mode"] = json!(id_mode);
+        // a scenario that lets the library assign the default identifiers 1..n has its labels fixed by that
+        let uses_default_ids = script["steps"].as_array().map(|a| a.iter().any(|st| st.get("custom").and_then(|x| x.as_bool()) == Some(false))).unwrap_or(false);
+        script["id_mode"] = json!(if uses_default_ids { "plain" } else { id_mode.as_str() });
         script["lenient"] = json!(true);
         let evs = run_any(&script, idx, &mut rep, true);
         let _ = writeln!(f, "{}", json!({"op": "reset", "script": idx, "prop": script["script"], "suite": suite, "id_mode": id_mode}));
@@ -382,9 +409,6 @@ fn cmd_replay(args: &[String]) -> i32 {
                         *rep.cover.entry("lost_lines".into()).or_insert(0) += 1;
                     }
                 }
-                if rep.lines.len() > 2000 {
-                    rep.lines.truncate(2000);
-                }
             }
             total.lock().unwrap().merge(rep, max_fail);
         }));
@@ -420,8 +444,18 @@ fn cmd_replay(args: &[String]) -> i32 {
     let rep = std::mem::take(&mut *total.lock().unwrap());
     let out = std::io::stdout();
     let mut out = out.lock();
-    for l in rep.lines.iter().take(200) {
-        let _ = writeln!(out, "MISMATCH {}", l);
+    // at most eight lines per kind (op, key) of mismatch, so that thousands of one kind cannot crowd out another
+    let mut per_kind: HashMap<(String, String), usize> = HashMap::new();
+    for l in rep.lines.iter() {
+        let kind = match serde_json::from_str::<Value>(l) {
+            Ok(v) => (v["op"].as_str().unwrap_or("").to_string(), v["key"].as_str().unwrap_or("script_error").to_string()),
+            Err(_) => ("".to_string(), "".to_string()),
+        };
+        let c = per_kind.entry(kind).or_insert(0);
+        *c += 1;
+        if *c <= 8 {
+            let _ = writeln!(out, "MISMATCH {}", l);
+        }
     }
     if let Some(d) = fail_dir {
         let _ = std::fs::create_dir_all(&d);
